@@ -578,7 +578,7 @@ def run(ctx: Ctx) -> Outcome:
                                         {"kind": "spec", "invariant": inv, "trace": res.counterexample[:60]}))
     loaders = ["sdl", "json"]
     cfgs = CFGS_QUICK if ctx.quick else CFGS_THOROUGH
-    n = 12 if ctx.quick else 30
+    n = 12 if ctx.quick else 24
     items = []
     for s, view in enumerate(views):
         for li, loader in enumerate(loaders):
@@ -587,7 +587,8 @@ def run(ctx: Ctx) -> Outcome:
                 ld = ["json-data", "file-json"][s % 2]     # the other front doors of the same loaders, on a slice of the family
             if loader == "sdl" and s % 7 == 5:
                 ld = "path"
-            items.append({"s": s, "view": view, "loader": ld, "cfgs": cfgs, "n": n, "seed": (ctx.seed * 1000003 + s * 17 + li) % (2 ** 31)})
+            # thorough: all 8 generation configs through the SDL loader, the 4 quick ones through the JSON loaders
+            items.append({"s": s, "view": view, "loader": ld, "cfgs": cfgs if loader == "sdl" else CFGS_QUICK, "n": n, "seed": (ctx.seed * 1000003 + s * 17 + li) % (2 ** 31)})
     t1 = time.time()
     results = common.pmap(work, items, chunk=1)
     t_draw = time.time() - t1
